@@ -37,7 +37,7 @@ def usable(cat, stack):
 
 def one(cat, rng, stack):
     b = RB(ID, cat, rng, stack)
-    b.idx_cmp = "idx"
+    b.idx_cmp = "status"   # index values are opaque here: equality is checked between the two real regions
     b.new("a")
     last = prehistory(b, "a", 1 + rng.below(10), reserve=False)
     if len(b.h["a"].vals) >= 2:
@@ -61,9 +61,9 @@ def one(cat, rng, stack):
         b.s.lines[nd].sig = "deserialised-answers-differently@" + b.entry
         b.read("d", kd, sig="deserialised-reads-differ@" + b.entry)
         if cat["caps"]["heap"]:
-            ha = b.raw("heap a", None, cmp="heap", shape="heap")
+            ha = b.raw("heap a", None, cmp="none", shape="heap")
             b.raw("heap d", ("rel", ha, lambda got, other: None if used(got) == used(other) else "used bytes differ", "same compression decisions"),
-                  cmp="heap", sig="deserialised-stores-differently@" + b.entry, shape="heap")
+                  cmp="none", sig="deserialised-stores-differently@" + b.entry, shape="heap")
     b.readall("d", sig="deserialised-reads-differ@" + b.entry)
     b.readall("a", sig="source-changed-by-serialisation@" + b.entry)
     return b.s
